@@ -647,12 +647,12 @@ pub fn render(t: &mut Tape, plan: &EnumPlan, core_only: bool) -> E2Case {
     // ---- run ----------------------------------------------------------------------------------
     let mut r = String::new();
     if core_only {
-        r.push_str("pub fn run() {\n");
+        r.push_str("fn same<T>(_a: &T, _b: &T) {}\npub fn run() {\n");
     } else {
         r.push_str("fn chk<T: core::fmt::Debug + PartialEq>(out: &mut Vec<String>, fl: &str, got: &T, want: &T) { if got == want { out.push(format!(\"{} OK\", fl)); } else { out.push(format!(\"{} MISMATCH got={:?} want={:?}\", fl, got, want)); } }\n");
         r.push_str("pub fn run(out: &mut Vec<String>) {\n");
     }
-    let sink = |fl: &str| if core_only { "let _ = (got, want);".to_string() } else { format!("chk(out, &format!(\"{}#{{}}\", i), &got, &want);", fl) };
+    let sink = |fl: &str| if core_only { "same(&got, &want);".to_string() } else { format!("chk(out, &format!(\"{}#{{}}\", i), &got, &want);", fl) };
     for (k, f) in [(FO, false), (FR, false), (OI, false), (RI, false), (FO, true), (FR, true), (OI, true), (RI, true)] {
         if !plan.cells[f as usize][k] {
             continue;
